@@ -260,6 +260,49 @@ def ports_leg(ck, S, singles):
             ck.nontrivial(('ports', ports, dflt, threads))
 
 
+def verbose_leg(ck, S):
+    """-v and -d make the workers print while they scan.  Whatever is printed meanwhile, and in whatever order the scans end, every
+    target's report is in the output exactly once and names its own banner."""
+    names = ['plain', 'terrapin', 'rsa1024']
+    tg = [('server', S[n]) for n in names]
+    scs, meta = [], []
+    for k in (2, 3):
+        for order in multi.feasible_orders(3, k):
+            for flag in ('-v', '-d'):
+                sc, labels = multi.scenario(tg, k, order, json_out=False, extra=[flag])
+                scs.append(sc)
+                meta.append((k, order, flag, labels))
+    for (k, order, flag, labels), sc, r in zip(meta, scs, runner.run_many(scs)):
+        ck.evaluated()
+        replay = {'targets': names, 'threads': k, 'finish_order': order, 'argv': sc['argv'], 'exit': r.get('exit'), 'stdout': (r.get('stdout') or '')[-4000:]}
+        if r.get('harness_error'):
+            raise common.Machinery('verbose run failed: %r' % r.get('harness_error'))
+        if r.get('hang'):
+            ck.violation('run-did-not-complete option=%s' % flag, 'three targets, %d threads, order %r with %s: the run never ended' % (k, order, flag), replay)
+            continue
+        out = report_strip_ansi(r['stdout'])
+        bad = []
+        for i, lab in enumerate(labels):
+            # (the target line omits the default port)
+            n_t = len([l for l in out.split('\n') if l.startswith('(gen) target: ') and l.split(': ', 1)[1].strip() in (lab, lab.rsplit(':', 1)[0])])
+            if n_t != 1:
+                bad.append('%s: %d "(gen) target" lines' % (lab, n_t))
+        want_banners = sorted(S[n]['banner'].decode() for n in names)
+        got_banners = sorted(l.split(': ', 1)[1].strip() for l in out.split('\n') if l.startswith('(gen) banner: '))
+        if got_banners != want_banners:
+            bad.append('banner lines %r, expected %r' % (got_banners, want_banners))
+        if bad:
+            ck.violation('report-lost-or-duplicated option=%s' % flag, 'three targets, %d threads, finish order %r, %s: %s' % (k, order, flag, '; '.join(bad)), replay)
+        else:
+            ck.cov['traces_validated_against_impl'] += 1
+            ck.nontrivial(('verbose', k, order, flag))
+
+
+def report_strip_ansi(x):
+    from harness import report
+    return report.strip_ansi(x)
+
+
 def schedule_leg(ck, tier, S, rnd):
     """Two targets on two worker threads, the threads driven through every schedule SshSched.tla generates (quick: one preemption,
     thorough: two - every pair of positions "A has done i network operations, B has done j" is visited): each target's JSON
@@ -450,6 +493,7 @@ def run(tier):
     unreachable_leg(ck, S, singles)
     granular_leg(ck)
     exception_leg(ck)
+    verbose_leg(ck, S)
     schedule_leg(ck, tier, S, rnd)
     verdicts = multi.validate(ck, traces)
     for m, tr, (ok, info) in zip(tmeta, traces, verdicts):
